@@ -43,9 +43,17 @@ func probeFeat(m *scen.Method, path string) (mech, dk, sk, extra string) {
 // judgeModel compares the model with the observed plan of one function and reports the
 // discrepancies whose governing rule is in `governed`.
 func judgeModel(rep *core.Report, prop string, c *CaseResult, fi *FuncInfo, exps []*refmodel.Expect, governed map[string]bool) {
+	judgeModelOnly(rep, prop, c, fi, exps, governed, "")
+}
+
+// judgeModelOnly is judgeModel restricted to one kind of discrepancy ("" = all).
+func judgeModelOnly(rep *core.Report, prop string, c *CaseResult, fi *FuncInfo, exps []*refmodel.Expect, governed map[string]bool, only string) {
 	ds := Compare(fi, exps)
 	seen := map[string]bool{}
 	for _, d := range ds {
+		if only != "" && d.Kind != only {
+			continue
+		}
 		nearMiss := false
 		for _, n := range d.Exp.Notes {
 			if n == "near-miss-notation" {
@@ -180,7 +188,11 @@ func modelCase(rep *core.Report, prop string, c *CaseResult, governed map[string
 		rep.Count("hidden_leaves_of_whole_copies_compared", len(hidden[key]))
 		exps = append(append([]*refmodel.Expect{}, exps...), hidden[key]...)
 		if badFuncs[key] {
+			// not judged as a whole (see above) - except for the one verdict that does not depend on
+			// telling the forms of a source expression apart: a leaf for which NO candidate fits
+			// (inaccessible, wrong type) is assigned nevertheless
 			rep.Count("skipped_function_with_type_error", 1)
+			judgeModelOnly(rep, prop, c, fi, exps, governed, "expected-none-got-assign")
 			continue
 		}
 		rep.Count("functions_compared", 1)
